@@ -1888,6 +1888,12 @@ CMR_ERROR decomposeTernarySeriesParallel(
           if (violatorSubmatrix)
           {
             CMRdbgMsg(4, "Extracted a violator submatrix.\n");
+
+            /* The violator refers to rows/columns of the reduced submatrix; return it in terms of the given matrix. */
+            for (size_t r = 0; r < violatorSubmatrix->numRows; ++r)
+              violatorSubmatrix->rows[r] = reducedSubmatrix->rows[violatorSubmatrix->rows[r]];
+            for (size_t c = 0; c < violatorSubmatrix->numColumns; ++c)
+              violatorSubmatrix->columns[c] = reducedSubmatrix->columns[violatorSubmatrix->columns[c]];
           }
 
           if (violatorSubmatrix)
